@@ -9,7 +9,9 @@ Syn(f, r) == [k |-> "syn", f |-> f, r |-> r]             \* literal template syn
 Missing   == [k |-> "missing"]
 Val(p)    == [k |-> "val", p |-> p, truthy |-> p # <<>>] \* a string value made of pieces
 Lit(s, b) == [k |-> "lit", s |-> s, truthy |-> b]        \* a non-string scalar: 0, False, None, 7
-Pieces(v) == IF v.k = "val" THEN v.p ELSE IF v.k = "lit" THEN <<[k |-> "str", s |-> v.s]>> ELSE <<>>
+Dv(p)     == [k |-> "dval", p |-> p, truthy |-> TRUE]   \* a dict item {'f': <string made of the pieces p>}: a loop renders it through str()
+Pieces(v) == IF v.k = "val" THEN v.p ELSE IF v.k = "lit" THEN <<[k |-> "str", s |-> v.s]>>
+             ELSE IF v.k = "dval" THEN <<T(11)>> \o v.p \o <<T(12)>> ELSE <<>>                 \* T(11) = "{'f': '", T(12) = "'}"
 Ctx(c, v) == IF v = "a" THEN c.a ELSE c.b
 RECURSIVE Render(_, _, _, _)
 RECURSIVE Loop(_, _, _, _, _)
